@@ -1254,6 +1254,25 @@ snowflake_dialect.update_keywords_set_from_multiline_string(
     "reserved_keywords", snowflake_reserved_keywords
 )
 
+# Keywords which grammar elements of this dialect (including inherited
+# ones) refer to, but which are in neither keyword set.
+snowflake_dialect.sets("unreserved_keywords").update(
+    [
+        "ASSIGNMENT",
+        "CONSTRUCTOR",
+        "EACH",
+        "INSTANCE",
+        "INSTEAD",
+        "METHOD",
+        "NEW",
+        "OLD",
+        "REFERENCING",
+        "SPECIFIC",
+        "STATIC",
+        "TIES",
+    ]
+)
+
 # Add datetime units and their aliases from
 # https://docs.snowflake.com/en/sql-reference/functions-date-time.html#label-supported-date-time-parts
 snowflake_dialect.sets("datetime_units").clear()
